@@ -292,4 +292,21 @@ def permOk (s : State) (perm : List Nat) : Bool :=
   let keys := s.metadata.map (·.1)
   perm.length == keys.length && keys.all (perm.contains ·) && perm.all (keys.contains ·)
 
+/-- `TcpBuilder::new()` / `TcpBuilder::default()`: `buffer_size: Some(1024)` (the documented default) -/
+def defaultBufferSize : Option Nat := some 1024
+
+/-- what `TcpBuilder::build` and `run_transport` derive from the configured `buffer_size` -/
+structure Plumbing where
+  /-- `match buffer_size { None => unbounded(), Some(size) => bounded(size) }` (`none` = no capacity limit) -/
+  chanCap : Option Nat
+  /-- `buffer_limit` as used by the read loop of the `WAKER` branch (`buffered_pmsgs.len() >= buffer_limit`) -/
+  batchLimit : Nat
+  /-- `buffer_limit` as used by the fan-out for every client's queue (`available`, `take(buffer_limit)`) -/
+  clientLimit : Nat
+deriving DecidableEq, Repr
+
+/-- `let buffer_size = self.buffer_size; … bounded(size) …; run_transport(.., buffer_size)` and
+    `let buffer_limit = buffer_size.unwrap_or(std::usize::MAX)` -/
+def plumb (bs : Option Nat) : Plumbing := ⟨bs, bs.getD usizeMax, bs.getD usizeMax⟩
+
 end MetricsVerif.Tcp
